@@ -4,6 +4,8 @@ From TLXV Require Import C10.Pool C10.PoolLemmas C10.PoolSafety.
 Import ListNotations.
 
 Definition other (c : cv) : cv := match c with CJ => CF | CF => CJ end.
+Lemma cv_eq_dec (c c' : cv) : {c = c'} + {c <> c'}.
+Proof. decide equality. Qed.
 
 (** in [wait]: between wait-begin and wait-end *)
 Definition aslp (a : api) : option cv := match a with QLE3 | QLT3 => Some CF | _ => None end.
@@ -218,5 +220,43 @@ Proof.
   - inversion H; subst. exact HI'.
 Qed.
 
+Lemma can_xnotify_slp ts : can_xnotify ts = true -> slp ts = None.
+Proof.
+  destruct ts as [| |p| | |? ? a ?| |a ?| |p|a ?]; cbn; try discriminate; try reflexivity;
+    try (destruct p; try discriminate; reflexivity); destruct a; try discriminate; reflexivity.
+Qed.
+
+(** an extra notification moves sleepers into the woken set; nobody's program counter changes *)
+Lemma winv_xstep s te s' : WInv s -> xstep s te = Some s' -> WInv s'.
+Proof.
+  intros [W1 W2 W3] H. destruct te as [t e].
+  destruct (xstep_inv _ _ _ _ H) as (Et & _ & _ & [E|[(c & E1 & E2 & E3)|(c & v & V & E1 & E2 & E3)]]).
+  - constructor; rewrite ?Et, ?E; auto.
+  - constructor; rewrite Et.
+    + intros c0 u Hu. destruct (cv_eq_dec c0 c) as [->|Hne]; [rewrite E1 in Hu; destruct Hu|].
+      rewrite (E2 c0 Hne) in Hu. destruct (W1 c0 u Hu) as (A & B). split; auto. rewrite E3. intros X. apply in_app_or in X.
+      destruct X as [X|X]; auto. destruct (W1 c u X) as (A' & _). congruence.
+    + intros c0 u Hu. rewrite E3. destruct (W2 c0 u Hu) as [A|A]; [|right; apply in_or_app; now right].
+      destruct (cv_eq_dec c0 c) as [->|Hne]; [right; apply in_or_app; now left | left; now rewrite (E2 c0 Hne)].
+    + intros u Hu. rewrite E3 in Hu. apply in_app_or in Hu. destruct Hu as [Hu|Hu]; auto. destruct (W1 c u Hu) as (A & _). congruence.
+  - destruct (W1 c v V) as (Av & Bv). constructor; rewrite Et.
+    + intros c0 u Hu. rewrite E3. destruct (cv_eq_dec c0 c) as [->|Hne].
+      * rewrite E1 in Hu. apply In_rem in Hu. destruct Hu as (Hu & Hv). destruct (W1 c u Hu) as (A & B). split; auto. intros [X|X]; congruence.
+      * rewrite (E2 c0 Hne) in Hu. destruct (W1 c0 u Hu) as (A & B). split; auto. intros [X|X]; auto. subst u. congruence.
+    + intros c0 u Hu. rewrite E3. destruct (Nat.eq_dec u v) as [->|Huv]; [right; now left|].
+      destruct (W2 c0 u Hu) as [A|A]; [|right; now right]. left.
+      destruct (cv_eq_dec c0 c) as [->|Hne]; [rewrite E1; apply In_rem; auto | now rewrite (E2 c0 Hne)].
+    + intros u Hu. rewrite E3 in Hu. destruct Hu as [<-|Hu]; auto. congruence.
+Qed.
+
 Lemma winv_reachable cfg fx sp s : reachable_gen cfg fx sp s -> WInv s.
-Proof. induction 1; [apply winv_init | eapply winv_step; eauto]. Qed.
+Proof. induction 1; [apply winv_init | eapply winv_step; eauto | eapply winv_xstep; eauto]. Qed.
+
+Lemma xstep_ws_sub s te s' : xstep s te = Some s' -> forall c u, In u (ws c (shr s')) -> In u (ws c (shr s)).
+Proof.
+  intros H c0 u Hu. destruct te as [t e].
+  destruct (xstep_inv _ _ _ _ H) as (_ & _ & _ & [E|[(c & E1 & E2 & E3)|(c & v & V & E1 & E2 & E3)]]).
+  - now rewrite E in Hu.
+  - destruct (cv_eq_dec c0 c) as [->|Hne]; [rewrite E1 in Hu; destruct Hu | now rewrite (E2 c0 Hne) in Hu].
+  - destruct (cv_eq_dec c0 c) as [->|Hne]; [rewrite E1 in Hu; apply In_rem in Hu; tauto | now rewrite (E2 c0 Hne) in Hu].
+Qed.
